@@ -19,7 +19,7 @@ def runs(tier):
     out = []
     out.append(dict(name='isl', nshards=8, constants=dict(base, Scenarios={'odeco'}, Ops={'IslOrthoTrunc', 'FromArray'},
                                                           KindPairs={('real', 'real')})))
-    out.append(dict(name='gen', constants=dict(base, MaxD=3 if q else 4, DimsR={2, 3} if q else {1, 2, 3}, DimsC={1},
+    out.append(dict(name='gen', constants=dict(base, MaxD=3 if q else 4, DimsR={2, 3}, DimsC={1}, RanksS={1, 2, 3} if q else {2, 3},
                                                Scenarios={'single'}, Ops={'FromArray', 'OrthoTrunc'},
                                                KindPairs={('real', 'real'), ('complex', 'complex'), ('def', 'def')})))
     out.append(dict(name='genop', constants=dict(base, MaxD=2 if q else 3, DimsR={2}, DimsC={2}, RanksS={2, 3},
